@@ -10,6 +10,8 @@ def main(tier):
     rng.banned_sources(P, rep)
     callers = rng.draws(P, rep)
     rng.engine_writes(P, rep)
+    from ..rules import pure as _pure
+    _pure.world_fields_initialised(P, rep)     # the seed handed to the engine is seed + MPI_RANK: both must be determinate
     # PURE: with the RNG draw as the only effect, the answers of a random world are a function of file, seed
     # and the sequence of draws, i.e. of the query history
     roots = pure.query_roots(P)
